@@ -289,8 +289,18 @@ def cargo_build(crate_dir, profile="release", features=None, rustflags=None, bin
 
 # ------------------------------------------------------------------ correspondence
 
+def _big_stack():
+    # the extracted model recurses structurally over lists: payloads of tens of kilobytes need more than the default 8 MB
+    import resource
+    try:
+        resource.setrlimit(resource.RLIMIT_STACK, (resource.RLIM_INFINITY, resource.RLIM_INFINITY))
+    except (ValueError, OSError):
+        hard = resource.getrlimit(resource.RLIMIT_STACK)[1]
+        resource.setrlimit(resource.RLIMIT_STACK, (hard, hard))
+
+
 def run_driver(drv, case_lines):
-    p = subprocess.run([drv], input="\n".join(case_lines) + "\n", capture_output=True, text=True, env=ENV)
+    p = subprocess.run([drv], input="\n".join(case_lines) + "\n", capture_output=True, text=True, env=ENV, preexec_fn=_big_stack)
     if p.returncode != 0:
         raise Failure("model driver crashed", p.stderr[-2000:])
     out = p.stdout.split("\n")
